@@ -284,3 +284,26 @@ Theorem C11_source_labels_correct :
      (to_move p = w -> nth_error (SelfPlayGen.results tr) i = Some (inject_Z 1)) /\
      (to_move p = flip w -> nth_error (SelfPlayGen.results tr) i = Some (inject_Z (-1)))).
 Proof. exact gen_labels_correct. Qed.
+
+(* ---- end to end for the real engine: the translated play_one_game on answers read off Good search trees ---- *)
+From TV Require model.Mcts proofs.MctsProofs proofs.ComposeSelfPlay proofs.ComposeSelfPlayGen.
+(* END TO END: the play_one_game translated from the source, run on the answers of a real engine, is the model's game;
+   and when it returns a transcript, every recorded candidate is legal, candidates are pairwise distinct, each next
+   position is the one stored in the chosen child AND the result of applying the picked candidate, the game starts at
+   the initial position with ply i at index i *)
+Theorem C11_source_real_engine :
+  forall cutoff solve C cfg ts, 0 <= sp_size cfg <= 8 ->
+  ComposeSelfPlayGen.engine_run_ok cutoff solve C cfg (start cfg) ts ->
+  let s := map (fun tp => ComposeSelfPlay.answer_of_tree solve C (fst tp) (snd tp)) ts in
+  SelfPlayGen.play_one_game cfg (ComposeSelfPlayGen.engine_stream solve C ts) = embed_outcome (SelfPlay.play_one_game cfg s) /\
+  forall tr, SelfPlayGen.play_one_game cfg (ComposeSelfPlayGen.engine_stream solve C ts) = Ok tr ->
+    exists e f, SelfPlay.play_one_game cfg s = Done tr e f /\
+    (forall i p ms m, nth_error (t_positions tr) i = Some p -> nth_error (t_moves tr) i = Some ms ->
+       In m ms -> exists q, move p m = Some q) /\
+    (forall i ms, nth_error (t_moves tr) i = Some ms -> NoDup ms) /\
+    (forall i p q, nth_error (t_positions tr) i = Some p -> nth_error (t_positions tr) (S i) = Some q ->
+       exists t pk ks k m, nth_error s i = Some (ComposeSelfPlay.answer_of_tree solve C t pk) /\ Mcts.n_pos t = p /\
+         Mcts.n_kids t = Some ks /\ nthz ks pk = Some k /\ Mcts.n_move k = Some m /\ Mcts.n_pos k = q /\ move p m = Some q) /\
+    (forall p0, nth_error (t_positions tr) 0 = Some p0 -> p0 = start cfg) /\
+    (forall i p, nth_error (t_positions tr) i = Some p -> ply p = Z.of_nat i).
+Proof. exact ComposeSelfPlayGen.gen_real_engine. Qed.
